@@ -36,6 +36,53 @@ theorem non_ivt_classes_known :
     ∀ c ∈ allClasses, c.hasAttr .ivt_table = true ∨ c.has .Mbi_MixinBcaTable = true ∨ c.has .Mbi_MixinBca = true := by
   decide +kernel
 
+/-! ## every mixin of the device database is in the interpreter (phase 3: mechanical list, mbi_mixin.py vs. the model) -/
+
+/-- the 28 mixins the interpreter of Model/Mbi.lean gives semantics to: by name in `mixLen` / `mixAppLen` / `flagsOf` / the
+    collectors / `encryptStage` / `postEncryptStage` / `signStage` / `finalizeStage` / `mixParse` / the reverts, or through their
+    parent (`derivesFrom`, `provider`: `Mbi_MixinIvtZeroTotalLength`, `Mbi_MixinTrustZoneMandatory`, `Mbi_MixinHmacMandatory`,
+    `Mbi_MixinManifestCrc/Digest`).  Two of them only add configuration keys and have no export / parse behaviour of their own:
+    `Mbi_MixinFwVersion` (the value is carried by the manifest mixins) and `Mbi_MixinLoadAddressOptional` (= `Mbi_MixinLoadAddress`
+    with default 0 in `mix_load_from_config`). -/
+def interpretedMixins : List MixinName :=
+  [.Mbi_MixinApp, .Mbi_MixinIvt, .Mbi_MixinIvtZeroTotalLength, .Mbi_MixinLoadAddress, .Mbi_MixinLoadAddressOptional,
+   .Mbi_MixinTrustZone, .Mbi_MixinTrustZoneMandatory, .Mbi_MixinImageSubType, .Mbi_MixinImageVersion, .Mbi_MixinHwKey,
+   .Mbi_MixinKeyStore, .Mbi_MixinHmacMandatory, .Mbi_MixinCtrInitVector, .Mbi_MixinRelocTable, .Mbi_MixinFwVersion,
+   .Mbi_MixinCertBlockV1, .Mbi_MixinCertBlockV21, .Mbi_MixinManifestCrc, .Mbi_MixinManifestDigest,
+   .Mbi_ExportMixinApp, .Mbi_ExportMixinAppTrustZone, .Mbi_ExportMixinAppTrustZoneCertBlock,
+   .Mbi_ExportMixinAppCertBlockManifest, .Mbi_ExportMixinAppTrustZoneCertBlockEncrypt, .Mbi_ExportMixinCrcSign,
+   .Mbi_ExportMixinRsaSign, .Mbi_ExportMixinEccSign, .Mbi_ExportMixinHmacKeyStoreFinalize]
+
+/-- no IVT class of the generated device table lists a mixin outside that list (a mixin class added to mbi_mixin.py and to a
+    device's class makes this fail until the interpreter knows it) -/
+theorem all_mixins_interpreted : ∀ c ∈ ivtClasses, ∀ m ∈ c.mixins, interpretedMixins.contains m = true := by decide +kernel
+
+/-- the Vx model (Model/MbiVx.lean) is keyed by `Vx.Kind`, not by mixin names: which kind an mc56 / mwct mixin list is -/
+def vxKindOfMixins (ms : List MixinName) : Option Vx.Kind :=
+  if ms = [.Mbi_MixinApp, .Mbi_MixinBcaTable, .Mbi_MixinFcfObsolete, .Mbi_ExportMixinAppFcf] then some .plain
+  else if ms = [.Mbi_MixinApp, .Mbi_MixinBcaTable, .Mbi_MixinFcfObsolete, .Mbi_ExportMixinCrcSignBca, .Mbi_ExportMixinAppFcf] then some .crc
+  else if ms = [.Mbi_MixinApp, .Mbi_MixinBcaTable, .Mbi_MixinBcaObsolete, .Mbi_MixinFcfObsolete, .Mbi_MixinCertBlockVx,
+                .Mbi_ExportMixinAppBcaFcf, .Mbi_ExportMixinEccSignVx] then some .signed
+  else none
+
+/-- every header-less class with a BCA table is EXACTLY one of the three mixin lists the Vx model covers, and the `sign`
+    provider the generated MRO facts resolve for it is the one of that kind -/
+theorem vx_classes_known : ∀ c ∈ allClasses, c.has .Mbi_MixinBcaTable = true →
+    ∃ k, vxKindOfMixins c.mixins = some k
+      ∧ c.resolve .sign = (match k with | .plain => none | .crc => some .Mbi_ExportMixinCrcSignBca | .signed => some .Mbi_ExportMixinEccSignVx)
+      ∧ c.resolve .collect_data = (match k with | .signed => some .Mbi_ExportMixinAppBcaFcf | _ => some .Mbi_ExportMixinAppFcf) := by
+  decide +kernel
+
+/-- all 40 mixin classes of mbi_mixin.py (the generated `MixinName`) are accounted for: interpreted (IVT classes), one of the
+    Vx lists, the two mcxc block mixins, or used by no class of the device database -/
+theorem mixin_census : ∀ m : MixinName,
+    interpretedMixins.contains m = true
+    ∨ [MixinName.Mbi_MixinBcaTable, .Mbi_MixinBcaObsolete, .Mbi_MixinFcfObsolete, .Mbi_MixinCertBlockVx, .Mbi_ExportMixinAppBcaFcf,
+       .Mbi_ExportMixinAppFcf, .Mbi_ExportMixinCrcSignBca, .Mbi_ExportMixinEccSignVx].contains m = true
+    ∨ [MixinName.Mbi_MixinBca, .Mbi_MixinFcf].contains m = true
+    ∨ (allClasses.all (fun c => !c.mixins.contains m)) = true := by
+  intro m; cases m <;> decide +kernel
+
 /-! ## the IVT flag word: bit-field independence over the generated masks / shifts / `create_flags` -/
 
 theorem flags_fields (t tz sub ver ksLen : Nat) (hTz hSub hHw hw hKs ksSet hTab tab hVer hV2T v2t : Bool)
@@ -46,6 +93,37 @@ theorem flags_fields (t tz sub ver ksLen : Nat) (hTz hSub hHw hw hKs ksSet hTab 
     ∧ getAppTablePresented f = (hTab && tab) ∧ getImageVersion f = (if hVer && hV2T && v2t then ver else 0)
     ∧ f < 2 ^ 32 :=
   Mbi.flags_fields t tz sub ver ksLen hTz hSub hHw hw hKs ksSet hTab tab hVer hV2T v2t ht htz hsub hver
+
+/-- the same round trip with the FORMAT's field widths as literals (6-bit image type, 2-bit TrustZone type, 2-bit sub type,
+    16-bit image version - not the generated masks): every getter reads back what `create_flags` wrote over the FULL range of
+    its field.  A getter mask narrower than the field the creator writes (e.g. `IVT_IMAGE_FLAGS_IMG_VER_MASK = 0xFF`) makes
+    this theorem fail although `flags_fields` (domain = the generated mask) would still be provable. -/
+theorem flags_fields_format_widths (t tz sub ver ksLen : Nat) (hTz hSub hHw hw hKs ksSet hTab tab hVer hV2T v2t : Bool)
+    (ht : t < 2 ^ 6) (htz : tz < 2 ^ 2) (hsub : sub < 2 ^ 2) (hver : ver < 2 ^ 16) :
+    let f := createFlags t hTz tz hSub sub hHw hw hKs ksSet ksLen hTab tab hVer ver hV2T v2t
+    getImageType f = t ∧ getTzType f = (if hTz then tz else 0) ∧ getSubType f = (if hSub then sub else 0)
+    ∧ getHwKeyEnabled f = (hHw && hw) ∧ getKeyStorePresented f = (hKs && ksSet && decide (ksLen > 0))
+    ∧ getAppTablePresented f = (hTab && tab) ∧ getImageVersion f = (if hVer && hV2T && v2t then ver else 0)
+    ∧ f < 2 ^ 32 :=
+  Mbi.flags_fields t tz sub ver ksLen hTz hSub hHw hw hKs ksSet hTab tab hVer hV2T v2t
+    (by have : imageTypeMask = 2 ^ 6 - 1 := by decide
+        omega)
+    (by have : tzTypeMask = 2 ^ 2 - 1 := by decide
+        omega)
+    (by have : subTypeMask = 2 ^ 2 - 1 := by decide
+        omega)
+    (by have : imgVerMask = 2 ^ 16 - 1 := by decide
+        omega)
+
+/-- `get_image_version (create_flags … v …) = v` for EVERY 16-bit version of a class that stores it (the reviewer's wave-6 change) -/
+theorem image_version_roundtrip (t tz sub v ksLen : Nat) (hTz hSub hHw hw hKs ksSet hTab tab : Bool)
+    (ht : t < 2 ^ 6) (htz : tz < 2 ^ 2) (hsub : sub < 2 ^ 2) (hv : v < 2 ^ 16) :
+    getImageVersion (createFlags t hTz tz hSub sub hHw hw hKs ksSet ksLen hTab tab true v true true) = v :=
+  (flags_fields_format_widths t tz sub v ksLen hTz hSub hHw hw hKs ksSet hTab tab true true true ht htz hsub hv).2.2.2.2.2.2.1
+
+/-- the hypotheses are satisfiable at the top of every range -/
+example : (63 : Nat) < 2 ^ 6 ∧ (3 : Nat) < 2 ^ 2 ∧ (0xFFFF : Nat) < 2 ^ 16
+    ∧ getImageVersion (createFlags 63 true 3 true 3 true true true true 1424 true true true 0xFFFF true true) = 0xFFFF := by decide
 
 /-! ## update_ivt / clean_ivt -/
 
@@ -163,6 +241,15 @@ theorem total_len_sum {co : CryptoOps} {env : Env} {c : Cls} {cfg : Cfg} {signer
   · exact Mbi.total_len_sum_signedV1 h hf
   · exact Mbi.total_len_sum_signedV21 h hf
   · exact Mbi.total_len_sum_encrypted h hf
+
+/-- the four slices of the encrypted image that the forward `post_encrypt` takes - GENERATED from its AST, constants by value -
+    are the ones `postEncryptStage` (Model/Mbi.lean) is written from: `[:64]` (the IVT part that gets the new words),
+    `[64:app_len]` (rest of the application AND the relocation table: the bound is `app_len` = application + relocation table,
+    not the length of the application), `[:56]` (copy of the encrypted IVT), `[app_len:]` (TrustZone data).  A changed bound
+    (seeded change C02f: `len(self.app)`) breaks this obligation in addition to the concrete oracle failures. -/
+theorem post_encrypt_slices :
+    postEncryptSlices = [("", "64"), ("64", "app_len"), ("", "56"), ("app_len", "")]
+    ∧ hmacOffset = 64 ∧ encIvtCopySize = 56 := by decide
 
 /-! ## images without IVT: mcxc (BCA / FCF blocks inside the application) and mc56 / mwct "Vx" images (Model/MbiVx.lean) -/
 
@@ -291,6 +378,14 @@ example : ∃ c ∈ ivtClasses, ∃ cfg : Cfg, c.family = some .signedV1 ∧ c.h
 example : ∃ c ∈ ivtClasses, ∃ cfg : Cfg, c.family = some .encrypted ∧ cfgWF c cfg = true ∧ cfg.ctrIv.length = 16 :=
   ⟨Mbi.exampleEncClass, by decide +kernel, { Mbi.exampleSignedCfg with ctrIv := List.replicate 16 0x11 }, by decide +kernel,
    by decide +kernel, by decide +kernel⟩
+
+/-- … and that encrypted configuration CARRIES A RELOCATION TABLE of two entries (the encrypted + relocation-table combination is
+    inside the domain of `parse_export` / `header_describes` / `total_len_sum`: `post_encrypt` keeps `image[64 : app_len]`,
+    `app_len` = application + relocation table), with the application strictly shorter than `app_len` -/
+example : ∃ c ∈ ivtClasses, ∃ cfg : Cfg, c.family = some .encrypted ∧ cfgWF c cfg = true
+    ∧ (cfg.reloc.map List.length) = some 2 ∧ (appData cfg).length < appLen c cfg :=
+  ⟨Mbi.exampleEncClass, by decide +kernel, { Mbi.exampleSignedCfg with ctrIv := List.replicate 16 0x11 }, by decide +kernel,
+   by decide +kernel, by decide +kernel, by decide +kernel⟩
 
 /-- a CRC XIP class with TrustZone and a 64-byte payload with custom TrustZone data -/
 example : ∃ c ∈ ivtClasses, ∃ cfg : Cfg, c.signKind = .crc ∧ cfgWF c cfg = true ∧ cfg.app.length = 61 :=
